@@ -29,6 +29,14 @@ EXTRAS = [
 ]
 
 
+SESSION_EXTRAS = [
+    {"sql": "create table db.t as select a.x, a.y, a.z, a.w from db.a a; insert into db.t select b.p, b.q, b.r, b.s from db.b b", "dialect": "ansi", "metadata": {"zz.o": ["q"]}},
+    {"sql": "insert into db.t select a.x1, a.y2, a.z3 from db.a a; insert into db.t select b.p, b.q, b.r from db.b b; insert into db.u select * from db.t", "dialect": "ansi", "metadata": {"zz.o": ["q"]}},
+    {"sql": "create view db.v as select a.k, a.m, a.n, a.o, a.p from db.a a; insert into db.v select c1, c2, c3, c4, c5 from db.c", "dialect": "ansi", "metadata": {"db.c": ["c1", "c2", "c3", "c4", "c5"]}},
+    {"sql": "create table t1 as select s.alpha, s.beta, s.gamma from s; update t1 set delta = s.d from s; insert into t2 select * from t1", "dialect": "ansi", "metadata": {"zz.o": ["q"]}},
+]
+
+
 def pub(rec):
     out = {"outcome_type": "ok" if rec["outcome"] == "ok" else rec["outcome"]["exc_type"]}
     for k in PUBLIC[1:]:
@@ -54,6 +62,14 @@ def workload(tier, rnd):
         cases += genload.cases_for_determinism(tier, rnd)
     except ImportError:
         pass
+    # scripts whose later statements depend on what earlier ones taught the session (provider in use): chains from C04's generator
+    from . import c04
+    for g in c04.chains("quick", common.rng("c11-chains"))[: (120 if tier == "quick" else 260)]:
+        cases.append({"sql": g["sql"], "dialect": "ansi", "metadata": c04.MD, "silent": False, "want": [], "src": "chain"})
+    for e in SESSION_EXTRAS:
+        c = dict(e)
+        c.update({"silent": False, "want": [], "src": "extra"})
+        cases.append(c)
     return cases
 
 
